@@ -4,7 +4,7 @@ use std::{
     sync::{Arc, Mutex, atomic::{AtomicUsize, Ordering}},
 };
 
-use ptverif::{alloc, engine, exec};
+use ptverif::{alloc, engine, exec, server};
 
 #[global_allocator]
 static A: alloc::Counting = alloc::Counting;
@@ -56,6 +56,12 @@ fn main() {
                                     serde_json::from_str(&lines[i]).expect("job json");
                                 let r = engine::run_engine(&job, &work);
                                 engine::to_ndjson(&job, &r, &mut out);
+                            }
+                            "server" => {
+                                let job: server::ServerJob =
+                                    serde_json::from_str(&lines[i]).expect("job json");
+                                let r = server::run_server(&job);
+                                out.extend(r.lines);
                             }
                             other => {
                                 eprintln!("unknown command {other}");
